@@ -10,7 +10,7 @@
   the byte-level engine model is tied to db.go by the `engine` correspondence suite.
 -/
 import LiteFSVerif.Proofs.Image
-import LiteFSVerif.Model.Engine
+import LiteFSVerif.Proofs.Engine
 
 set_option linter.unusedSimpArgs false
 
@@ -50,7 +50,7 @@ theorem C02_rollback_identity (prev : Img) (dirty : List Nat) (txid : Nat) (pre 
 theorem C02_commit_readonly (s : Eng) (mode : Nat) (h : s.writeable = false) :
     commitJournal s mode = .error (s, .readonly) := by
   unfold commitJournal
-  simp [h, fail, bind, Except.bind]
+  simp [h, ensure, fail, pure, Except.pure, bind, Except.bind, bind, Except.bind]
 
 /-- engine: `invalidateJournal` never touches the database image, the position or the log -/
 theorem C02_invalidate_frame (s s' : Eng) (mode : Nat) (h : invalidateJournal s mode = .ok s') :
@@ -60,11 +60,11 @@ theorem C02_invalidate_frame (s s' : Eng) (mode : Nat) (h : invalidateJournal s 
   match mode, h with
   | 0, h =>
     simp only [bind, Except.bind, pure, Except.pure] at h
-    cases hj : s.journal <;> simp [hj, fail] at h
+    cases hj : s.journal <;> simp [hj, ensure, fail, pure, Except.pure, bind, Except.bind] at h
     rw [← h]; simp
   | 1, h =>
     simp only [bind, Except.bind, pure, Except.pure] at h
-    cases hj : s.journal <;> simp [hj, fail] at h
+    cases hj : s.journal <;> simp [hj, ensure, fail, pure, Except.pure, bind, Except.bind] at h
     rw [← h]; simp
   | n + 2, h =>
     simp only [bind, Except.bind, pure, Except.pure] at h
@@ -82,6 +82,16 @@ theorem C02_rollback_publishes_nothing (s s' : Eng) (mode : Nat) (j : ByteArray)
   simp only [hw, Bool.not_true, Bool.false_eq_true, if_false, hj, bind, Except.bind, pure, Except.pure, hlt, hmagic, if_true] at h
   have := C02_invalidate_frame s s' mode h
   exact ⟨this.1, this.2.1, this.2.2.1, this.2.2.2.1⟩
+
+/-- engine: a journal finalisation with a valid header publishes exactly one file: it extends the
+    position by exactly one transaction ID, its pre-apply checksum is the previous position's
+    checksum, and the new position is the file's (max TXID, post-apply checksum); the commit itself
+    does not write the database file -/
+theorem C02_commit_once_in_order (s s' : Eng) (mode : Nat) (h : commitJournalValid s mode = .ok s') :
+    ∃ f : LTXFile, s'.ltx = addLTX s.ltx f ∧ f.minTxid = s.posTxid + 1 ∧ f.maxTxid = s.posTxid + 1 ∧
+      f.pre = s.posChk ∧ f.post = s'.posChk ∧ s'.posTxid = s.posTxid + 1 ∧ s'.pageN = f.commit ∧
+      s'.dbFile = s.dbFile :=
+  commitJournalValid_shape s s' mode h
 
 /-! ### non-vacuity: a grow-and-modify transaction -/
 example : apply [10, 20, 30] (capture [11, 20, 30, 40] [1, 4] 5 5 0 0) = [11, 20, 30, 40] := by decide
